@@ -14,6 +14,41 @@ from . import source as src
 from .tmpl import Tmpl, Atom, mk as tmpl_mk, join as tmpl_join, is_strlike, to_tmpl_part
 
 
+class LocalFunc:
+    def __init__(self, node, module, owner):
+        self.node, self.module, self.owner = node, module, owner
+
+    def call(self, interp, st, args, kwargs, node):
+        yield from interp.call_localfunc(st, self, args, kwargs, node)
+
+    def __repr__(self):
+        return f"<local function {self.node.name}>"
+
+
+class ClassMethodVal:
+    def __init__(self, func):
+        self.func = func
+
+
+class BoundLocal:
+    """a local function bound to its first argument (method / classmethod access)"""
+
+    def __init__(self, func, first):
+        self.func, self.first = func, first
+
+    def call(self, interp, st, args, kwargs, node):
+        yield from interp.call(st, self.func, [interp._relocate(st, self.first)] + list(args), kwargs, node)
+
+
+def bind_class_attr(v, klass, instance):
+    """descriptor protocol for functions stored in an abstract class dictionary"""
+    if isinstance(v, ClassMethodVal):
+        return BoundLocal(v.func, klass)
+    if isinstance(v, LocalFunc) and instance is not None:
+        return BoundLocal(v, instance)
+    return v
+
+
 class ObjectBuiltin:
     """`object`: object.__new__(cls) makes a bare instance of the abstract class object cls"""
 
@@ -355,6 +390,74 @@ class ExtMixin:
         if args:
             raise Unsupported("dict(...) with arguments")
         return PDict(dict(kw))
+
+    # ------------------------------------------------------------------ nested function definitions (closures)
+    def ex_FunctionDef(self, st, s):
+        """`def f(...)` inside a function: bind the name to a value that, when called, runs the body with the enclosing
+        frame's variables visible (late binding, as python closures do)"""
+        fr = st.frames[-1]
+        lf = LocalFunc(s, getattr(fr, "module", None), fr.func)
+        # variables of the enclosing function as of now: used when the closure is called after that function has returned
+        # (late binding through the live frame is used while it is still on the stack)
+        lf.snapshot = dict(fr.locals)
+        st.locals[s.name] = lf
+        yield st, None
+
+    def call_localfunc(self, st, f, args, kwargs, node):
+        enclosing = None
+        for fr in reversed(st.frames):
+            if fr.func == f.owner:
+                enclosing = fr
+                break
+        a = f.node.args
+        if a.vararg or a.kwarg:
+            # *args / **kwargs of local functions: bind the tuple / dict
+            pass
+        names = [x.arg for x in a.args]
+        vals = dict(enclosing.locals) if enclosing is not None else dict(getattr(f, "snapshot", {}))
+        pos = list(args)
+        if len(pos) > len(names) and not a.vararg:
+            raise Unsupported("too many arguments for local function")
+        for nme, v in zip(names, pos):
+            vals[nme] = v
+        if a.vararg:
+            vals[a.vararg.arg] = tuple(pos[len(names):])
+        kw = dict(kwargs)
+        for nme in names[len(pos):]:
+            if nme in kw:
+                vals[nme] = kw.pop(nme)
+        for nme, d in zip(names[len(names) - len(a.defaults):], a.defaults):
+            if nme not in vals or (nme in names[len(pos):] and nme not in kwargs and nme not in [n for n, _ in zip(names, pos)]):
+                vals.setdefault(nme, ast.literal_eval(d))
+        if a.kwarg:
+            vals[a.kwarg.arg] = PDict(kw)
+        elif kw:
+            raise Unsupported("unexpected keyword arguments for local function")
+        fr = Frame(f.owner + ".<locals>." + f.node.name, vals)
+        fr.module = f.module
+        fr.fnode = f.node
+        st.frames.append(fr)
+        st.depth += 1
+        from .interp import RAISED
+
+        for st1, out in self.exec_block(st, src.body_of(f.node)):
+            st1.frames.pop()
+            st1.depth -= 1
+            if out is None:
+                yield st1, None
+            elif out[0] == "return":
+                yield st1, out[1]
+            elif out[0] == "raise":
+                st1.pending_raise = out
+                yield st1, RAISED
+            else:
+                raise Unsupported("break/continue escaping a function")
+
+    def bi_classmethod(self, st, f, args, kw, node):
+        return ClassMethodVal(args[0])
+
+    def bi_staticmethod(self, st, f, args, kw, node):
+        return args[0]
 
     # ------------------------------------------------------------------ classes from source
     def class_static_attr(self, c, attr):
